@@ -82,6 +82,18 @@ func c09(tier string) {
 		// documents answered with an error from deep inside the normalizer (broken source maps)
 		strings.Replace(lib.SourceMapDoc(), `"http://a.ml/vocabularies/document-source-maps#element":[{"@value":"http://ex.org/n1"}],`, "", 1),
 		strings.Replace(lib.SourceMapDoc(), `,"http://a.ml/vocabularies/document-source-maps#value":[{"@value":"[(7,2)-(9,4)]"}]`, "", 1)}
+	// the same kinds of unusual text at the size of a real model (several KiB: more than one read of the decoder is left
+	// unread behind an early error, and a long tail follows a complete value); placed before the two broken source maps
+	{
+		big := lib.DecorateWithSourceMaps(c05Graph(lib.CaseRand(ctx.Seed, 9, 400)), rr).Text
+		for len(big) < 6000 {
+			big = "  " + big + "\n"
+		}
+		large := []string{"\x00" + big, big[:1] + "!" + big[1:], big[:len(big)/3] + "\x01" + big[len(big)/3:], big[:len(big)/2], big + " " + big,
+			strings.Repeat(" \n", 1500) + big, big + strings.Repeat("]", 3000)}
+		ctx.Count("large_unusual_documents_in_the_pool", len(large))
+		common = append(common[:len(common)-2:len(common)-2], append(large, common[len(common)-2:]...)...)
+	}
 	nCommon := len(common)
 	for _, p := range c05Profiles() {
 		defs = append(defs, pdef{p.Text(), append(append([]string{}, c05docs...), common...)})
